@@ -6,6 +6,7 @@
 //! `impl.out` (the implementation's answers) and `report.json`.
 
 mod engines {
+	pub mod chunker;
 	pub mod encoding;
 	pub mod tomlorder;
 }
@@ -36,6 +37,9 @@ fn main() {
 			"C01" => {
 				engines::tomlorder::run(&mut out, &mut rng.fork(), thorough);
 				props::c01::run(&mut out, &mut rng.fork(), thorough);
+			}
+			"C03" => {
+				engines::chunker::run(&mut out, &mut rng.fork(), thorough);
 			}
 			"C07" => {
 				engines::encoding::run(&mut out, &mut rng.fork(), thorough);
